@@ -136,6 +136,7 @@ def check(ctx):
     _markers(ctx, prog)
     _time_axes(ctx, prog)
     _formatter(ctx, prog)
+    _euler_default(ctx, prog)
     _purity(ctx, prog)
 
 
@@ -489,6 +490,47 @@ def _time_axes(ctx, prog):
 
 
 # --------------------------------------------------------------------- C20.5
+def _euler_default(ctx, prog):
+    """C20.7: traj_rpy labels column 0/1/2 of get_orientations_euler(
+    SETTINGS.euler_angle_sequence) roll / pitch / yaw; that is the rotation
+    about x / y / z only for the static-frame sequence 'sxyz' ('rzyx' is the
+    same rotation with the angles in reverse order). The packaged default of
+    that setting must therefore be 'sxyz'."""
+    m = prog.module("evo.tools.settings_template")
+    r = Interp(prog).run_module(m)
+    d = r.env.get("DEFAULT_SETTINGS_DICT_DOC")
+    val = None
+    if d is not None and d.op == "dict":
+        for k, v in d.args:
+            if tm.is_const(k, "euler_angle_sequence") and v.op == "tuple" \
+                    and v.args and tm.is_const(v.args[0]):
+                val = v.args[0].args[1]
+    if val is None:
+        ctx.undecidable("C20.7", prog.func(PL + "traj_rpy"),
+                        "default of euler_angle_sequence not found in "
+                        "settings_template.DEFAULT_SETTINGS_DICT_DOC")
+        return
+    f = prog.func(PL + "traj_rpy")
+    rr = Interp(prog, inline=_helpers).run(f)
+    uses = [e for e in rr.of_kind("call")
+            if (e.data.get("name") or "").endswith("get_orientations_euler")]
+    seq = uses[0].data["args"][0] if uses and uses[0].data["args"] else \
+        ((uses[0].data.get("bound") or {}).get("axes") if uses else None)
+    from_setting = seq is not None and any(
+        x.op == "attr" and x.args[1] == "euler_angle_sequence"
+        for x in seq.walk())
+    ok = val == "sxyz" if from_setting else (
+        seq is not None and tm.is_const(seq, "sxyz"))
+    ctx.ob("C20.7", f, ok,
+           "roll / pitch / yaw sub-plots: the packaged Euler sequence is "
+           "'sxyz', whose angles are the rotations about x, y, z in that "
+           "order" if ok else
+           f"roll / pitch / yaw sub-plots take their columns from the Euler "
+           f"sequence {val!r} (packaged default): column 0 is then not the "
+           f"rotation about x, so the plot labelled roll shows another "
+           f"angle", key="C20.7:euler-default", default=val)
+
+
 def _formatter(ctx, prog):
     f = prog.func(PL + "_get_length_formatter")
     it = Interp(prog)
